@@ -35,3 +35,25 @@ pub(crate) struct AppState {
     pub(crate) mongodb_client: Client,
     pub(crate) currently_running: Mutex<HashSet<RunningInfo>>,
 }
+
+/// Registers a task as running and removes it again when dropped, i.e. also
+/// when the computation panics.
+pub(crate) struct RunningGuard<'a> {
+    state: &'a AppState,
+    info: RunningInfo,
+}
+
+impl<'a> RunningGuard<'a> {
+    pub(crate) fn new(state: &'a AppState, info: RunningInfo) -> Self {
+        state.currently_running.lock().unwrap().insert(info.clone());
+        Self { state, info }
+    }
+}
+
+impl Drop for RunningGuard<'_> {
+    fn drop(&mut self) {
+        if let Ok(mut running) = self.state.currently_running.lock() {
+            running.remove(&self.info);
+        }
+    }
+}
